@@ -145,6 +145,15 @@ def c09(ctx):
         jobs.append(("reach%d" % k, dev_cfg("match", [], 1, nt=k, initany=False, emit=False), 1, None))
         jobs.append(("edges%d" % k, dev_cfg("match", [], 1, nt=k, initany=True), 1, None))
     run_devices(ctx, jobs, 1 if q else 4)
+    # borrow-level model of connect(): the repaired step order never panics and refines the atomic link algebra; the pinned (legacy)
+    # order must reach the "already borrowed" panic, otherwise the model could not have found the defect (self-test)
+    bcfg = lambda nt, legacy: cfg_text(constants={"NT": nt, "Legacy": legacy}, invariants=["NoPanic", "Matching"], properties=["RefinesAtomic"])
+    for nt in (2, 3, 4, 5, 6):
+        tlc_ok(run_tlc(ctx, "ConnectBorrow", bcfg(nt, False), "borrow%d" % nt, 1))
+    leg = run_tlc(ctx, "ConnectBorrow", bcfg(2, True), "borrow_legacy", 1)
+    if not any("NoPanic is violated" in e for e in leg["errors"]):
+        raise ToolError("ConnectBorrow with the legacy step order did not reach the panic: the borrow-level model is vacuous")
+    ctx.notes.append("self-test: ConnectBorrow with Legacy = TRUE reaches the 'already borrowed' panic (the defect fixed by 9c8bcaa)")
     ctx.rule = ("Terminals 2..6: TLC explores the whole graph reachable from the empty matching by connect(i,j), i # j, and disconnect(i) "
                 "(invariant Matching, action property ConnectLaw), then emits every matching x every operation (and every pair of "
                 "operations) as a behaviour; terminal k holds state 2^k so the state read identifies the partner. For 2 and 3 terminals "
